@@ -75,6 +75,10 @@ CHECKS = {
    text="Per shape (disconnected, isolated nodes, singletons, multi-edges, nested edges) with symbolic labels: connected components, is_connected, component count, largest component and a symbolic node's component against networkx on the node-edge bipartite graph; single-source shortest path lengths from a symbolic source against BFS in the clique expansion (inf exactly across components, symmetry); clustering coefficient against nx.clustering of the projection; to_graph, s-line graph with its three weight modes (s solver-chosen), bipartite graph and encapsulation DAG against definitions evaluated by the harness.",
    note="Reduced reach, stated: shapes enumerated; the solver quantifies labels, source node, s, weight mode, subset_types. networkx is the independent oracle. Exact link set of the 'empirical' encapsulation DAG is outside.",
    technique="bounded symbolic execution (z3) of xgi's graph algorithms on symbolic labels against networkx on harness-built expansions"),
+ "C08": dict(level="other", ref="5/C08",
+   text="Every public callable whose first parameter is a network (enumerated by introspection on each run, ambiguous names settled by a probe call), the three constructors and 27 read-only view/stat/network methods are called on every shape of the bound in two modes - symbolic unbounded labels, and labels forked over a window under real hashing - with recipe arguments (node/edge selections, order, flags solver-chosen); the deep snapshot of the argument network (order, members, memberships, three attribute levels, next automatic id, frozen flag) must be identical afterwards on every path, and again after the harness edits the structural containers and returned networks it was handed.",
+   note="Reduced reach, stated: for branch-free callables this is one path per shape; callables that push labels into C code only run in the windowed concrete mode (the symbolic attempt is reported per callable in the evidence). Attribute records are live by design and are not edited; simulate_* and download functions are skipped by name.",
+   technique="bounded symbolic execution (z3) + windowed label forking: snapshot-before = snapshot-after over an introspected API surface"),
 }
 NOT_APPLICABLE = {
  "C11": "disk round trips: every value that reaches a file passes through json/numpy C encoders which reject or realise a symbolic proxy, so no solver variable can cross the file boundary; in-memory halves are decided under C10/C04",
